@@ -31,6 +31,16 @@ def handle : Handler
         some (Driver.strOut ("\n".intercalate lines))
       | _ => some "not-a-struct"
     | .error e => some ("bad-schema " ++ e)
+  | "module", [json] =>
+    match parseSchema json with
+    | .ok S => some (Driver.strOut ("\n".intercalate (moduleLines S)))
+    | .error e => some ("bad-schema " ++ e)
+  | "class", [ty, json] =>
+    match parseSchema json with
+    | .ok S => match S.find ty with
+      | some t => some (Driver.strOut ("\n".intercalate (typeClass S ty t)))
+      | none => some "unknown-type"
+    | .error e => some ("bad-schema " ++ e)
   | _, _ => none
 
 def main : IO Unit := Driver.run handle
